@@ -62,6 +62,7 @@ func runC01(p *Prog, r *Report) {
 	c01R3(p, r)
 	c01R4(p, r)
 	c01R5(p, r)
+	c01R6(p, r)
 }
 
 func c01R1(p *Prog, r *Report) {
@@ -425,6 +426,22 @@ func boundedByMaxPayload(p *Prog, fc *FuncCtx, e ast.Expr, depth int) (bool, str
 	if !ok {
 		// a whole buffer variable
 		if o := objOf(info, e); o != nil {
+			// a local with several definitions: the one definition that reaches this use
+			if at := fc.G.VertexOf(e); at >= 0 && depth < 4 {
+				if rd := fc.ReachingDefs(at, o); len(rd) == 1 && rd[0] != fc.G.Entry {
+					if as, isAs := fc.G.V[rd[0]].Node.(*ast.AssignStmt); isAs && len(as.Lhs) == len(as.Rhs) {
+						for i, l := range as.Lhs {
+							if objOf(info, l) == o && ast.Unparen(as.Rhs[i]) != e {
+								ok, why := boundedByMaxPayload(p, fc, as.Rhs[i], depth+1)
+								if ok {
+									return true, why
+								}
+								return false, "definition " + exprStr(as) + ": " + why
+							}
+						}
+					}
+				}
+			}
 			if rhs, idx, _, ok := fc.SoleDefRHS(o); ok && idx < 0 && depth < 4 {
 				return boundedByMaxPayload(p, fc, rhs, depth+1)
 			} else if ok && idx >= 0 && depth < 4 {
@@ -478,6 +495,44 @@ func boundedByMaxPayload(p *Prog, fc *FuncCtx, e ast.Expr, depth int) (bool, str
 		}
 		return false, "not a slice expression: " + exprStr(e)
 	}
+	// form: F[lo:] — a suffix of a struct field buffer is as long as the field at most; the field
+	// is bounded when every store into it anywhere in the package stores a bounded slice (or
+	// grows its capacity only)
+	if sl.High == nil && depth < 4 {
+		if f := fieldOrVar(info, sl.X); f != nil && isField(f) {
+			nStores, all, why := 0, true, ""
+			p.AllFuncs(fc.Pkg, func(top *FuncCtx) {
+				for _, c := range allCtxs(p, top) {
+					ci := c.Info()
+					for _, v := range c.G.V {
+						as, ok := v.Node.(*ast.AssignStmt)
+						if !ok || len(as.Lhs) != len(as.Rhs) {
+							continue
+						}
+						for i, l := range as.Lhs {
+							if fieldOrVar(ci, l) != f {
+								continue
+							}
+							nStores++
+							rhs := ast.Unparen(as.Rhs[i])
+							if call, isCall := rhs.(*ast.CallExpr); isCall && len(call.Args) > 0 {
+								if fn := Callee(ci, call); fn != nil && fn.Name() == "Grow" && fieldOrVar(ci, call.Args[0]) == f {
+									continue // same content, more capacity
+								}
+							}
+							if ok2, w := boundedByMaxPayload(p, c, rhs, depth+1); !ok2 {
+								all, why = false, w+" at "+p.posStr(as.Pos())
+							}
+						}
+					}
+				}
+			})
+			if nStores > 0 && all {
+				return true, "suffix of field " + f.Name() + ", every store of which is bounded"
+			}
+			return false, "field " + f.Name() + " is not bounded at a store: " + why
+		}
+	}
 	// form: X[lo:hi] with constant extent
 	if sl.High != nil {
 		if hi, ok := constInt(info, sl.High); ok {
@@ -519,7 +574,18 @@ func boundedByMaxPayload(p *Prog, fc *FuncCtx, e ast.Expr, depth int) (bool, str
 		}
 		// k is the count returned by a read into a bounded buffer, or by ShadowStreamConn.read (<= 0xFFFF by Uint16)
 		if ko := objOf(info, k); ko != nil {
-			for _, d := range fc.Defs(ko) {
+			kdefs := fc.Defs(ko)
+			if at := fc.G.VertexOf(sl); at >= 0 {
+				// only the definitions that can reach this use
+				kdefs = nil
+				for _, d := range fc.ReachingDefs(at, ko) {
+					if d == fc.G.Entry {
+						return false, "count " + ko.Name() + " may be undefined here"
+					}
+					kdefs = append(kdefs, d)
+				}
+			}
+			for _, d := range kdefs {
 				as, ok := fc.G.V[d].Node.(*ast.AssignStmt)
 				if !ok || len(as.Rhs) != 1 {
 					return false, "count " + ko.Name() + " has an unrecognised definition"
@@ -543,7 +609,9 @@ func boundedByMaxPayload(p *Prog, fc *FuncCtx, e ast.Expr, depth int) (bool, str
 						}
 					}
 				default:
-					return false, "count " + ko.Name() + " comes from " + exprStr(c)
+					if !intBoundedByMax(p, fc, as.Rhs[0], resultIndex(info, as, ko), maxPayload, depth+1) {
+						return false, "count " + ko.Name() + " comes from " + exprStr(c)
+					}
 				}
 			}
 			if len(fc.Defs(ko)) > 0 {
@@ -989,4 +1057,234 @@ func c01R5(p *Prog, r *Report) {
 	})
 	r.Count("caller_buffer_uses", n)
 	r.Floor(rule, 3)
+}
+
+// c01R6: left-over discipline. Read with a small buffer opens a whole chunk into readBuf and
+// hands out a part; readBuf[readStart:] is plaintext the reader has not seen yet. Whatever path
+// moves the data next (Read again, WriteTo, the tunnel-to-tunnel copy) must deliver that
+// left-over before it opens the next chunk — the chunk reader overwrites the same buffer.
+func c01R6(p *Prog, r *Report) {
+	const rule = "C01-R6"
+	r.Rule(rule, "left-over first: every call of the chunk reader (*ShadowStreamConn).read on a connection is either dominated by the test that the connection has no left-over (readStart == len(readBuf)) or preceded on every path by a statement that hands readBuf[readStart:] of that connection to a writer/copy — on every copy path (Read, WriteTo, tunnel-to-tunnel)")
+	pkg := p.Pkg("ss2022")
+	n := 0
+	p.AllFuncs(pkg, func(top *FuncCtx) {
+		for _, fc := range allCtxs(p, top) {
+			info := fc.Info()
+			for i, cs := range fc.CallsTo(isFn(mp("ss2022"), "ShadowStreamConn", "read")) {
+				sel, ok := ast.Unparen(cs.Call.Fun).(*ast.SelectorExpr)
+				if !ok {
+					continue
+				}
+				connKey := pathKey(info, sel.X)
+				if connKey == "" {
+					continue
+				}
+				n++
+				isField := func(e ast.Expr, f string) bool {
+					s2, ok := ast.Unparen(e).(*ast.SelectorExpr)
+					return ok && s2.Sel.Name == f && pathKey(info, s2.X) == connKey
+				}
+				isLenBuf := func(e ast.Expr) bool {
+					c, ok := ast.Unparen(e).(*ast.CallExpr)
+					if !ok || len(c.Args) != 1 {
+						return false
+					}
+					id, ok := ast.Unparen(c.Fun).(*ast.Ident)
+					return ok && id.Name == "len" && isField(c.Args[0], "readBuf")
+				}
+				// (a) no left-over on this path
+				var empty []Edge
+				for _, cv := range fc.G.V {
+					x, y, op, okc := condParts(cv)
+					if !okc || y == nil {
+						continue
+					}
+					var holds int = -1
+					switch {
+					case (isField(x, "readStart") && isLenBuf(y)) || (isLenBuf(x) && isField(y, "readStart")):
+						switch op {
+						case token.EQL:
+							holds = LTrue
+						case token.NEQ:
+							holds = LFalse
+						case token.LSS, token.GTR:
+							holds = LFalse // readStart < len(readBuf) false (or len > readStart false): nothing left
+							if (op == token.LSS && !isField(x, "readStart")) || (op == token.GTR && !isLenBuf(x)) {
+								holds = -1
+							}
+						case token.GEQ, token.LEQ:
+							holds = LTrue
+							if (op == token.GEQ && !isField(x, "readStart")) || (op == token.LEQ && !isLenBuf(x)) {
+								holds = -1
+							}
+						}
+					}
+					for _, e := range cv.Succs {
+						if e.Label == holds {
+							empty = append(empty, e)
+						}
+					}
+				}
+				// (b) the left-over is handed on first
+				flush := map[int]bool{}
+				for _, c2 := range fc.AllCalls() {
+					if c2.V == cs.V {
+						continue
+					}
+					for _, a := range c2.Call.Args {
+						if sl, ok := ast.Unparen(fc.Resolve(a)).(*ast.SliceExpr); ok && sl.High == nil && sl.Low != nil && isField(sl.X, "readBuf") && isField(sl.Low, "readStart") {
+							flush[c2.V] = true
+						}
+					}
+				}
+				// every path from the entry to the read crosses a no-left-over edge or a hand-over
+				isEmpty := map[Edge]bool{}
+				for _, e := range empty {
+					isEmpty[e] = true
+				}
+				reach := fc.G.Reach([]int{fc.G.Entry}, func(v *Vertex) bool { return flush[v.ID] }, func(e Edge) bool { return isEmpty[e] })
+				r.Check((len(empty) > 0 || len(flush) > 0) && !reach[cs.V], rule, fmt.Sprintf("%s:read#%d-after-leftover", fc.Name, i), cs.Pos(), "the next chunk is opened only when nothing is left over (or after the left-over was handed on)",
+					"the next chunk is read into the connection's buffer although bytes of the previous chunk may still be waiting in readBuf[readStart:] (an earlier Read with a small buffer): they are overwritten and never delivered — the stream loses data when the reader switches to this copy path")
+			}
+		}
+	})
+	r.Count("chunk_reader_call_sites", n)
+	r.Floor(rule, 3)
+}
+
+// resultIndex: the position of obj on the left-hand side of a multi-value assignment.
+func resultIndex(info *types.Info, as *ast.AssignStmt, obj types.Object) int {
+	for i, l := range as.Lhs {
+		if objOf(info, l) == obj {
+			return i
+		}
+	}
+	return 0
+}
+
+// intBoundedByMax: the integer expression (or, for a call of a function of this package, its
+// idx-th result at every return) is a constant <= max, a widened 16-bit value, or a variable all
+// of whose reaching definitions are such.
+func intBoundedByMax(p *Prog, fc *FuncCtx, e ast.Expr, idx int, max int64, depth int) bool {
+	if depth > 14 {
+		return false
+	}
+	info := fc.Info()
+	e = ast.Unparen(e)
+	if k, isC := constInt(info, e); isC {
+		return k >= 0 && k <= max
+	}
+	if t := info.TypeOf(e); t != nil {
+		if b, ok := t.Underlying().(*types.Basic); ok && (b.Kind() == types.Uint16 || b.Kind() == types.Uint8) && max >= 0xFFFF {
+			return true
+		}
+	}
+	switch x := e.(type) {
+	case *ast.CallExpr:
+		if inner, ok := isConversion(info, x); ok {
+			return intBoundedByMax(p, fc, inner, 0, max, depth+1)
+		}
+		fn := Callee(info, x)
+		if fn == nil {
+			return false
+		}
+		if fn.Name() == "read" && namedTypeName(recvTypeOf(fn)) == "ShadowStreamConn" && idx == 0 {
+			return true // int(Uint16) of the opened length chunk (C01-R3 checks read itself)
+		}
+		callee := p.CtxOfObj(fn)
+		if callee == nil {
+			return false
+		}
+		rets := callee.Returns()
+		if len(rets) == 0 {
+			return false
+		}
+		for _, ret := range rets {
+			rs := callee.G.V[ret].Node.(*ast.ReturnStmt)
+			switch {
+			case len(rs.Results) == 0:
+				ro := callee.ResultObj(idx)
+				if ro == nil || !varBoundedAt(p, callee, ro, ret, max, depth+1) {
+					return false
+				}
+			case idx < len(rs.Results):
+				if callee.ErrAtReturn(ret) == ErrNonNil {
+					continue // the count of a failed call is not used (callers test the error)
+				}
+				if !intBoundedByMax(p, callee, rs.Results[idx], 0, max, depth+1) {
+					return false
+				}
+			case len(rs.Results) == 1:
+				// return f(...) forwarding
+				if !intBoundedByMax(p, callee, rs.Results[0], idx, max, depth+1) {
+					return false
+				}
+			default:
+				return false
+			}
+		}
+		return true
+	case *ast.Ident:
+		o := objOf(info, x)
+		if o == nil {
+			return false
+		}
+		at := fc.G.VertexOf(x)
+		if at < 0 {
+			return false
+		}
+		return varBoundedAt(p, fc, o, at, max, depth+1)
+	}
+	return false
+}
+
+func varBoundedAt(p *Prog, fc *FuncCtx, o types.Object, at int, max int64, depth int) bool {
+	info := fc.Info()
+	defs := fc.ReachingDefs(at, o)
+	if len(defs) == 0 {
+		return false
+	}
+	for _, d := range defs {
+		if d == fc.G.Entry {
+			// the zero value of a named result
+			if ro := fc.ResultObj(0); ro != nil {
+				isRes := false
+				for i := 0; fc.ResultObj(i) != nil; i++ {
+					if fc.ResultObj(i) == o {
+						isRes = true
+					}
+				}
+				if isRes {
+					continue
+				}
+			}
+			return false
+		}
+		as, ok := fc.G.V[d].Node.(*ast.AssignStmt)
+		if !ok {
+			if vs, isVS := fc.G.V[d].Node.(*ast.ValueSpec); isVS && len(vs.Values) == 0 {
+				continue
+			}
+			return false
+		}
+		if as.Tok != token.ASSIGN && as.Tok != token.DEFINE {
+			return false
+		}
+		switch {
+		case len(as.Lhs) == len(as.Rhs):
+			for i, l := range as.Lhs {
+				if objOf(info, l) == o && !intBoundedByMax(p, fc, as.Rhs[i], 0, max, depth+1) {
+					return false
+				}
+			}
+		case len(as.Rhs) == 1:
+			if !intBoundedByMax(p, fc, as.Rhs[0], resultIndex(info, as, o), max, depth+1) {
+				return false
+			}
+		default:
+			return false
+		}
+	}
+	return true
 }
